@@ -2,5 +2,5 @@
 From Coq Require Import ExtrOcamlBasic ZArith NArith.
 From ZV Require Import Recover.Consts Recover.Path.
 Extraction Language OCaml.
-Extraction "model.ml" Z.of_N N.of_nat Nat.add init_state step run run_from listing recover_state recover
+Extraction "model.ml" Z.of_N N.of_nat Nat.add init_state step run run_from listing recover_state recover_state_isolated recover
   choose_snapshot read_all image inflight sched_holds ready_records mkConfig mkReady.
